@@ -72,6 +72,8 @@ TOK_REL = {'word': 'w', 'tag': L('PRELS'), 'edge': '--'}
 
 CROSS = [[NEGRA, SPLIT, RAISE], [ROOT_ATTACH, NEGRA, SPLIT, RAISE]]
 PUNCTP = [[ROOT_ATTACH, PVL], [ROOT_ATTACH, PSY], [ROOT_ATTACH, PSYR], [PRT], [ROOT_ATTACH, PRT]]
+# the root need not be the node labelled VROOT: after add_topnode it is TOP, with VROOT below it
+PUNCTP_TOP = [[TOP, PRT], [TOP, ROOT_ATTACH, PVL]]
 ALLOPS = [ROOT_ATTACH, NEGRA, SPLIT, RAISE, TOP, PVL, PRT, PSY, BIN, COL, UNC]
 
 # phrases made of punctuation only: the "never the last child" guards of the punctuation operations are live
@@ -90,6 +92,7 @@ MODELS = {
                          model(4, 3, MaxChain=2, toks=(PLAIN, TOK_HD), edges=('--', 'HD'), programs=CROSS)]},
     'C13': {'quick': [model(4, 2, toks=(PLAIN, TOK_COMMA, TOK_QUOTE), programs=PUNCTP[:2] + PUNCTP[3:]),
                       PUNCT_DENSE,
+                      model(3, 2, toks=(PLAIN, TOK_COMMA), programs=PUNCTP_TOP),
                       model(3, 3, MaxChain=2, toks=(PLAIN, TOK_COMMA, TOK_QUOTE, TOK_REL), programs=PUNCTP)],
             'thorough': [model(5, 2, toks=(PLAIN, TOK_COMMA, TOK_QUOTE), programs=PUNCTP[:2] + PUNCTP[3:]),
                          model(4, 3, MaxChain=2, toks=(PLAIN, TOK_COMMA, TOK_QUOTE, TOK_REL), programs=PUNCTP)]},
@@ -102,10 +105,10 @@ MODELS = {
             'thorough': [model(4, 3, toks=(PLAIN, TOK_HD, TOK_NK), edges=('--', 'HD', 'NK'), programs=[[NEGRA]]),
                          model(5, 2, toks=(PLAIN, TOK_HD, TOK_NK), edges=('--', 'HD', 'NK'), programs=[[NEGRA]])]},
     'C11': {'quick': [model(4, 2, MaxChain=2, toks=(PLAIN, TOK_COMMA), programs=[[PDEL]] + [[op('delete_terminal', pos=i)] for i in (1, 2, 3, 4)]),
-                      model(3, 2, MaxChain=2, toks=(PLAIN, TOK_TR1, TOK_TR2), labels=('X', 'NP-1', 'S=2-1'), programs=[[o] for o in PTBS]),
+                      model(3, 2, MaxChain=2, toks=(PLAIN, TOK_TR1, TOK_TR2), labels=('X', 'NP-1', 'S=2-1', 'NP=2'), programs=[[o] for o in PTBS]),
                       model(3, 2, NMin=2, programs=[[o] for o in INS + SUB + FILT])],
             'thorough': [model(5, 4, MaxChain=2, toks=(PLAIN, TOK_COMMA), programs=[[PDEL]] + [[op('delete_terminal', pos=i)] for i in (1, 2, 3, 4, 5)]),
-                         model(4, 3, MaxChain=2, toks=(PLAIN, TOK_TR1, TOK_TR2, TOK_TR3), labels=('X', 'NP-1', 'S=2-1'), programs=[[o] for o in PTBS]),
+                         model(4, 3, MaxChain=2, toks=(PLAIN, TOK_TR1, TOK_TR2, TOK_TR3), labels=('X', 'NP-1', 'S=2-1', 'NP=2'), programs=[[o] for o in PTBS]),
                          model(3, 3, MaxChain=2, programs=[[o] for o in INS + SUB + FILT] + [[INS[3], SUB[5]], [SUB[2], INS[1]]])]},
     'C04': {'quick': [model(3, 2, MaxChain=2, toks=(PLAIN, TOK_COMMA, TOK_QUOTE), ops=ALLOPS, MaxOps=2),
                       PUNCT_DENSE,
@@ -243,7 +246,7 @@ RULES_P = op('mark_heads_by_rules', preset='ptb')
 RANDOM_PROGRAMS = {
     'C12': [[ROOT_ATTACH]],
     'C05': CROSS + [[RULES_N, NEGRA, SPLIT, RAISE], [RULES_P, SPLIT, RAISE], [NEGRA, BIN, NEGRA, SPLIT, RAISE]],
-    'C13': PUNCTP,
+    'C13': PUNCTP + PUNCTP_TOP,
     'C14': [[NEGRA, BIN], [NEGRA, BINB], [COL, UNC], [NEGRA, BIN, COL, UNC]],
     'C15': [[NEGRA], [RULES_P, NEGRA], [RULES_N, NEGRA], [NEGRA, RULES_P], [NEGRA, BIN, NEGRA], [RULES_P, RULES_N],
             [op('mark_heads_by_rules', preset='negra')], [op('mark_heads_by_rules', preset='ptb')],
@@ -283,7 +286,8 @@ def random_cases(prop, tier, seed, mods):
     for k in range(n):
         dense[0] = prop in ('C13', 'C04') and k % 4 == 3      # phrases consisting of punctuation only
         T = treeio.random_tree(rnd, nmax=8 if tier == 'quick' else 11, maxcons=6,
-                               labels=('S', 'NP', 'VP', 'NP-1') if prop not in ('C15', 'C05', 'C04')
+                               labels=(('S', 'NP', 'VP', 'NP-1') if prop != 'C11' else ('S', 'NP=2', 'VP-SBJ=1', 'NP-1', 'S=2-1'))
+                               if prop not in ('C15', 'C05', 'C04')
                                else ('S', 'NP', 'VP', 'NP-1', 'CO', 'DL', 'PRN', 'INTJ', 'PP', 'FRAG'),
                                edges=('--', 'HD', 'NK'),
                                words=wordf, tags=('T', 'PRELS'), tokedges=('--', 'HD', 'NK'), chain=0.4)
@@ -291,6 +295,23 @@ def random_cases(prop, tier, seed, mods):
             x['a']['lab'] = list(x['a']['lab'])
         fix_traces(T)
         prog = rnd.choice(RANDOM_PROGRAMS[prop])
+        if prop == 'C14' and k % 2 == 1:
+            # head marks as some earlier processing left them: per constituent either one marked child (others
+            # explicitly unmarked) or no head attribute on any child - independent of the node's own attribute;
+            # binarize without a marker before it (a node with > 2 children none of which carries a mark is rejected)
+            par = {}
+            for y in T['nodes']:
+                anc = [a_ for a_ in T['nodes'] if treeio.dominates(a_, y)]
+                if anc:
+                    par[id(y)] = max(anc, key=lambda a_: a_['d'])
+            for c in [x for x in T['nodes'] if not x['tok']]:
+                kids = [y for y in T['nodes'] if par.get(id(y)) is c]
+                if rnd.random() < 0.35 or not kids:
+                    continue
+                h = rnd.randrange(len(kids))
+                for i_, y in enumerate(kids):
+                    y['a']['head'] = 'T' if i_ == h else 'F'
+            prog = [rnd.choice([BIN, BINB])]
         if prop == 'C11':
             prog = [o for o in prog if not (o['name'] == 'delete_terminal' and (o['pos'] > T['n'] or T['n'] < 2))]
         if T['n'] < 2 and [o['name'] for o in prog] != ['collapse_unary_chains', 'uncollapse_unary_chains']:
